@@ -1230,6 +1230,10 @@ func doRequestFollowRedirects(
 ) (statusCode int, body []byte, err error) {
 	redirectsCount := 0
 	initialHost := hostnameFromURLString(url)
+	// url is absolute and carries the scheme from here on. A request received by
+	// a Server over TLS is marked isTLS, which forces https whenever its URI is
+	// re-parsed: without this a redirect to http:// would be followed as https://.
+	req.isTLS = false
 
 	for {
 		req.SetRequestURI(url)
